@@ -73,6 +73,12 @@ class VerifDuckChemistry(AutoChemistry):
     @property
     def gases(self):
         return [self._base] + [g.molecule for g in self._added]
+    def fitting_parameters(self):
+        full = {}
+        for g in self._added:
+            full.update(g.fitting_parameters())
+        full.update(self._param_dict)
+        return full
     def initialize_chemistry(self, nlayers=100, temperature_profile=None, pressure_profile=None, altitude_profile=None):
         for g in self._added:
             g.initialize_profile(nlayers, temperature_profile, pressure_profile, altitude_profile)
